@@ -25,6 +25,9 @@ Tests(kk) ==
   \cup {[kind |-> "token", tok |-> i - 1, cls |-> cls, expect |-> "FormatError"] :
           i \in PtToks(kk), cls \in {"off-curve", "x-ge-modulus", "wrong-subgroup"}}
   \cup {[kind |-> "token", tok |-> i - 1, cls |-> cls, expect |-> "FormatError"] : i \in ScToks(kk), cls \in {"ge-modulus", "modulus"}}
+  \* two points outside the prime-order subgroup whose small-order components cancel (cofactor curves): each must still be rejected
+  \cup {[kind |-> "token2", tok |-> pr[1], tok2 |-> pr[2], cls |-> "wrong-subgroup-pair", expect |-> "FormatError"] :
+          pr \in {<<0, 1>>, <<0, 10>>, <<3, 7>>, <<5, 4>>} \cup (IF kk >= 1 THEN {<<2, 15>>, <<15, 16 + kk>>} ELSE {})}
   \cup {[kind |-> "trailing", expect |-> "same", verify |-> TRUE]}
   \cup {[kind |-> "lenprefix", which |-> w, val |-> v, expect |-> IF v = "k+1" THEN "" ELSE "FormatError", verify |-> TRUE] :
           w \in {0, 1}, v \in {"max", "2^40", "2^32", "2^20", "k+1"}}
@@ -38,6 +41,7 @@ Stream ==
   LET h == Honest(k) kinds == Kinds(k, k) IN
   CASE test.kind = "prefix" -> CutAt(h, kinds, test.cut, 1)
     [] test.kind = "token" -> [h EXCEPT ![test.tok + 1] = [st |-> "bad"]]
+    [] test.kind = "token2" -> [h EXCEPT ![test.tok + 1] = [st |-> "bad"], ![test.tok2 + 1] = [st |-> "bad"]]
     [] test.kind = "trailing" -> h \o << [st |-> "ok"] >>
     [] test.kind = "lenprefix" ->
          \* a count larger than what follows: the decoder runs into the tail (whose bytes are not valid points) or off the end
